@@ -161,4 +161,25 @@ def openStored (fixEof : Bool) (stored : Bytes) : Opened :=
   if rest.length < n then (if rest.isEmpty && !fixEof then .emptyPart else .fail) else
   .stream (rest.take n) (rest.drop n)
 
+/-! ## toy ciphers (for negation witnesses and non-vacuity examples; not used by any theorem's hypotheses) -/
+
+/-- 16 bytes that spell out key, segment index, last flag and nonce prefix -/
+def toyTag (k : Nat) (n : Nonce) : Bytes :=
+  ([UInt8.ofNat k, UInt8.ofNat n.idx, if n.last then 1 else 0] ++ n.pre ++ List.replicate 16 0).take 16
+
+/-- a transparent "cipher": the plaintext followed by `toyTag` -/
+def toyAead : AEAD where
+  sealSeg := fun k n m => m ++ toyTag k n
+  openSeg := fun k n c =>
+    if c.length < 16 then none else
+    if c.drop (c.length - 16) == toyTag k n then some (c.take (c.length - 16)) else none
+
+/-- an "ideal" cipher for one part: it opens exactly the ciphertexts that were sealed for the segments
+`segs` under `key` and `pre`, and nothing else -/
+def loggedAead (key : Nat) (pre : Bytes) (segs : List Bytes) : AEAD where
+  sealSeg := fun k n m => toyAead.sealSeg k n m
+  openSeg := fun k n c =>
+    if k == key && n.pre == pre && decide (n.idx < segs.length) && (n.last == decide (n.idx + 1 = segs.length)) &&
+        c == toyAead.sealSeg key n (segs.getD n.idx []) then some (segs.getD n.idx []) else none
+
 end Pithos.Tink
